@@ -27,13 +27,13 @@ ASSUMPTIONS = [
     'site states reported by Transitions are taken as given (their geometric correctness is C02)',
 ]
 SITE_OPTS = [-1, 0, 1, 2]
-LMAX = {'quick': 7, 'thorough': 9}
-MMAX = {'quick': 5, 'thorough': 6}
+LMAX = {'quick': 7, 'thorough': 10}
+MMAX = {'quick': 5, 'thorough': 7}
 CHUNK = 800
-N_RANDOM = {'quick': 200, 'thorough': 5000}
+N_RANDOM = {'quick': 200, 'thorough': 20000}
 RESIDENCES = [0, 1, 2, 3, 5]
 BOUNDARY_T = {'quick': [127, 128, 129, 130, 255, 256, 257, 258, 32769], 'thorough': [126, 127, 128, 129, 130, 131, 254, 255, 256, 257, 258, 259, 32767, 32768, 32769, 32770, 65537]}
-BUDGET_S = {'quick': 220, 'thorough': 2400}
+BUDGET_S = {'quick': 220, 'thorough': 3600}
 COLS = ['atom index', 'start site', 'destination site', 'start time', 'stop time']
 
 _mon = Monitor()
